@@ -1,2 +1,293 @@
-/-! Line-protocol driver of the Conc model (stub). -/
-def main : IO Unit := pure ()
+import SoxrModel.Conc.Model
+import SoxrModel.Conc.Vr
+import SoxrModel.Conc.Clips
+/-!
+# `soxr_conc` — checks event traces of the real code against the model's step function
+
+The deterministic-scheduler harness (`harness/conc/sched.c`) runs the real library and prints, for every run, one line per
+lock operation / yield point of every managed thread, together with the values of the real shared variables right after the
+event.  This driver replays each trace on the **same `fire` the theorems quantify over**: it keeps, per cache, the abstract
+state `St` and (only to know which transition an event is) each thread's program point; an event is mapped to the unique
+transition(s) of that thread that can explain it (invisible steps — tests, increments, stores — are taken immediately before
+the thread's next event, which is when they happen under the scheduler), each must be enabled in the abstract state, and
+after each event the abstract shared variables must equal the real ones and the abstract counts must equal the number of
+threads at each program point.  Output: one line per run, `ok …` with what the model saw, or `REJECT …` at the first event the
+model cannot take.
+
+Input lines
+```
+RUN <id> threads=<n> warm0=<0|1> warm1=<0|1>      cache 0 = double (`fft_cache_ccrw`), cache 1 = float (`fft_cache_ccrw_f`)
+E <tid> <cache> <want|got|rel|init|yield> <name> <arg> <FFT_LEN> <readcount> <writecount> <tab> <m1> <m2> <m3> <w> <r>
+V <tid> <begin|passed|filled|end|leave>          variable-rate jobs: vr_init's table initialiser
+END
+CLIPS <t0> <c1> <c2> …                            atomic clip-counter model run to completion
+```
+-/
+namespace Soxr.Conc.Driver
+open Soxr.Conc
+
+inductive Ev where
+  | want (l : Lock) | got (l : Lock) | rel (l : Lock) | ini (l : Lock) | yld (tag : String)
+  deriving Repr
+
+/-- the yield point (a no-op for the model) that sits at a program point -/
+def yieldAt : Pc → Option String
+  | .i1 => some "check-passed"
+  | .i6 => some "locks-initialised"
+  | .b0 => some "rebuild-begin"
+  | .wt => some "begin-as-writer"
+  | .y1 => some "end-as-writer"
+  | .rd => some "begin-as-reader"
+  | .x1 => some "end-as-reader"
+  | _ => none
+
+def visLabel (labels : List Label) (pc : Pc) (v : Vis) : Option Label :=
+  labels.find? fun l => l.src == pc && l.vis == v
+
+/-- `some none`: the event is visible at `pc` and is a no-op for the model; `some (some l)`: it is transition `l` -/
+def visibleAt (labels : List Label) (pc : Pc) : Ev → Option (Option Label)
+  | .yld tag => if yieldAt pc == some tag then some none else none
+  | .want L => (visLabel labels pc (.p L)).map fun _ => none
+  | .got L => (visLabel labels pc (.p L)).map some
+  | .rel L => (visLabel labels pc (.v L)).map some
+  | .ini L => (visLabel labels pc (.ini L)).map some
+
+/-- the invisible transitions that lead from `pc` to a point where the event is visible -/
+def tauPath (labels : List Label) : Nat → Pc → Ev → Option (List Label)
+  | 0, _, _ => none
+  | fuel + 1, pc, ev =>
+    match visibleAt labels pc ev with
+    | some _ => some []
+    | none =>
+      (labels.filter fun l => l.src == pc && l.vis == .tau).findSome? fun l =>
+        (tauPath labels fuel l.dst ev).map (l :: ·)
+
+structure Cache where
+  st : St
+  pcs : Array Pc
+  lens : Array Int
+  -- what the model saw along the trace
+  fired : Nat := 0
+  overlap : Bool := false       -- a reader inside a transform while a thread re-allocates / rebuilds
+  twoWriters : Bool := false
+  shrunk : Bool := false        -- FFT_LEN decreased
+  maxReaders : Nat := 0
+  upgrades : Nat := 0
+  downgrades : Nat := 0
+
+def Cache.new (n : Nat) (warmStart : Bool) : Cache :=
+  { st := (if warmStart then warm n else cold n).compact, pcs := Array.replicate n Pc.idle, lens := Array.replicate n 0 }
+
+instance : Inhabited Cache := ⟨Cache.new 0 true⟩
+
+def lockOf : String → Option Lock
+  | "m1" => some .m1 | "m2" => some .m2 | "m3" => some .m3 | "w" => some .w | "r" => some .r
+  | _ => none
+
+def showLabel (l : Label) : String := (reprStr l).replace "Soxr.Conc.Label." ""
+def showPc (p : Pc) : String := (reprStr p).replace "Soxr.Conc.Pc." ""
+
+def fireOne (c : Cache) (tid : Nat) (l : Label) : Except String Cache :=
+  match fire l c.st with
+  | none =>
+    let s := c.st
+    let ls := showLabel l
+    let ps := showPc l.src
+    .error (s!"transition {ls} of thread {tid} (now at {ps}) is not enabled in the model: FFT_LEN={s.flen} readcount={s.readcount} " ++
+            s!"writecount={s.writecount} m1={s.m1} m2={s.m2} m3={s.m3} w={s.w} r={s.r} pend={s.pend}")
+  | some t =>
+    let t := t.compact
+    let ov : Bool := c.overlap || (decide (0 < t.reading) && decide (0 < t.rebuilding))
+    let tw : Bool := c.twoWriters || decide (2 ≤ t.writersIn)
+    let sh : Bool := c.shrunk || decide (t.flen < c.st.flen)
+    let mr : Nat := max c.maxReaders t.reading
+    let newPcs := c.pcs.set! tid l.dst
+    let nf := c.fired + 1
+    let c : Cache := { c with st := t, pcs := newPcs, fired := nf, overlap := ov, twoWriters := tw, shrunk := sh, maxReaders := mr }
+    let c := match l with
+      | .c0_grow => { c with upgrades := c.upgrades + 1 }
+      | .c1_fail => { c with downgrades := c.downgrades + 1 }
+      | _ => c
+    .ok c
+
+structure Obs where
+  flen : Int
+  rc : Int
+  wc : Int
+  tab : Int
+  m1 : Nat
+  m2 : Nat
+  m3 : Nat
+  w : Nat
+  r : Nat
+
+def checkObs (c : Cache) (o : Obs) : Except String Unit := do
+  let s := c.st
+  let chk (name : String) (m r : Int) : Except String Unit :=
+    if m == r then .ok () else .error s!"after the event the model has {name}={m} but the real code has {name}={r}"
+  chk "FFT_LEN" s.flen o.flen
+  chk "readcount" s.readcount o.rc
+  chk "writecount" s.writecount o.wc
+  chk "tab" s.tab o.tab
+  chk "mutex_1" s.m1 o.m1
+  chk "mutex_2" s.m2 o.m2
+  chk "mutex_3" s.m3 o.m3
+  chk "w" s.w o.w
+  chk "r" s.r o.r
+
+/-- projection: the abstract counts are the numbers of threads at each program point -/
+def checkCounts (c : Cache) : Except String Unit :=
+  match allS.find? (fun p => c.st.cnt p != (c.pcs.toList.filter (· == p)).length) with
+  | some p => .error s!"count projection broken at {showPc p}"
+  | none => .ok ()
+
+def stepEvent (c : Cache) (tid : Nat) (ev : Ev) (arg : Int) (o : Obs) : Except String Cache := do
+  if tid ≥ c.pcs.size then throw s!"thread id {tid} out of range"
+  let pc := c.pcs[tid]!
+  let isRebuildBegin := match ev with | .yld "rebuild-begin" => true | _ => false
+  let len := if isRebuildBegin then arg else c.lens[tid]!
+  let labels := allLabels len
+  let some path := tauPath labels 5 pc ev
+    | throw s!"thread {tid} is at {showPc pc} in the model, where the event cannot happen (neither directly nor after invisible steps)"
+  let mut c := c
+  if isRebuildBegin then c := { c with lens := c.lens.set! tid arg }
+  let mut cur := pc
+  for l in path do
+    c ← fireOne c tid l
+    cur := l.dst
+  match visibleAt labels cur ev with
+  | some (some l) => c ← fireOne c tid l
+  | some none => pure ()
+  | none => throw "internal: path does not end at a visible point"
+  checkObs c o
+  checkCounts c
+  return c
+
+/-! variable-rate tables -/
+structure VrD where
+  st : Vr.St
+  pcs : Array Nat     -- 0 idle, 1 v0, 2 v1, 3 v2, 4 vu
+  fills : Nat := 0
+  earlyUse : Bool := false
+  fired : Nat := 0
+
+def VrD.new (n : Nat) : VrD := { st := Vr.cold n, pcs := Array.replicate n 0 }
+
+def vrFire (d : VrD) (tid : Nat) (l : Vr.Label) (dst : Nat) : Except String VrD :=
+  match Vr.fire l d.st with
+  | none => .error s!"vr: transition {reprStr l} of thread {tid} is not enabled in the model: fade0={d.st.fade0} v1={d.st.v1} v2={d.st.v2} vu={d.st.vu}"
+  | some t => .ok { d with st := t, pcs := d.pcs.set! tid dst, fired := d.fired + 1, fills := t.nFill,
+                           earlyUse := d.earlyUse || (0 < t.vu && 0 < t.v2) }
+
+def vrEvent (d : VrD) (tid : Nat) (kind : String) : Except String VrD := do
+  if tid ≥ d.pcs.size then throw s!"thread id {tid} out of range"
+  let pc := d.pcs[tid]!
+  match kind, pc with
+  | "begin", 0 => vrFire d tid .enter 1
+  | "passed", 1 => vrFire d tid .check_cold 2
+  | "filled", 2 => vrFire d tid .fill 3
+  | "end", 1 => vrFire d tid .check_warm 4
+  | "end", 2 => do let d ← vrFire d tid .fill 3; vrFire d tid .finish 4
+  | "end", 3 => vrFire d tid .finish 4
+  | "leave", 4 => vrFire d tid .leave 0
+  | k, p => throw s!"vr: event {k} cannot happen with thread {tid} at point {p}"
+
+structure Run where
+  id : String
+  caches : Array Cache
+  vr : VrD
+  events : Nat := 0
+  failed : Option String := none
+
+def b2n (b : Bool) : Nat := if b then 1 else 0
+
+def summary (r : Run) : String :=
+  let c (i : Nat) : String :=
+    let k := r.caches[i]!
+    s!"c{i}:fired={k.fired},nInit={k.st.nInit},nReset={k.st.nReset},nStore={k.st.nStore},flen={k.st.flen},overlap={b2n k.overlap}," ++
+    s!"twoWriters={b2n k.twoWriters},shrunk={b2n k.shrunk},maxReaders={k.maxReaders},upgrades={k.upgrades},downgrades={k.downgrades}," ++
+    s!"idle={k.st.cnt .idle}"
+  s!"events={r.events} {c 0} {c 1} vr:fired={r.vr.fired},fills={r.vr.fills},earlyUse={b2n r.vr.earlyUse}"
+
+def kv (toks : List String) (k : String) : Option String :=
+  toks.findSome? fun t => match t.splitOn "=" with
+    | [a, b] => if a == k then some b else none
+    | _ => none
+
+def parseEv (kind name : String) : Option Ev :=
+  match kind with
+  | "yield" => some (.yld name)
+  | "want" => (lockOf name).map .want
+  | "got" => (lockOf name).map .got
+  | "rel" => (lockOf name).map .rel
+  | "init" => (lockOf name).map .ini
+  | _ => none
+
+def handleLine (cur : Option Run) (line : String) : Option Run × Option String :=
+  let toks := (line.trimAscii.toString.splitOn " ").filter (· ≠ "")
+  match toks with
+  | "RUN" :: id :: rest =>
+    let n := ((kv rest "threads").bind String.toNat?).getD 2
+    let w0 := (kv rest "warm0") == some "1"
+    let w1 := (kv rest "warm1") == some "1"
+    (some { id := id, caches := #[Cache.new n w0, Cache.new n w1], vr := VrD.new n }, none)
+  | ["END"] =>
+    match cur with
+    | none => (none, some "REJECT ? END without RUN")
+    | some r =>
+      match r.failed with
+      | some msg => (none, some s!"REJECT {r.id} {msg}")
+      | none => (none, some s!"ok {r.id} {summary r}")
+  | "E" :: tid :: cache :: kind :: name :: arg :: obs =>
+    match cur with
+    | none => (none, none)
+    | some r =>
+      if r.failed.isSome then (some r, none) else
+      let r := { r with events := r.events + 1 }
+      let fail (m : String) : Option Run × Option String := (some { r with failed := some s!"event={r.events} [{line.trimAscii.toString}] {m}" }, none)
+      match tid.toNat?, cache.toNat?, parseEv kind name, arg.toInt?, obs.map String.toInt? with
+      | some t, some ci, some ev, some a, [some flen, some rc, some wc, some tab, some m1, some m2, some m3, some w, some rr] =>
+        if ci ≥ 2 then fail "bad cache index" else
+        let o : Obs := { flen, rc, wc, tab, m1 := m1.toNat, m2 := m2.toNat, m3 := m3.toNat, w := w.toNat, r := rr.toNat }
+        match stepEvent r.caches[ci]! t ev a o with
+        | .ok c => (some { r with caches := r.caches.set! ci c }, none)
+        | .error m => fail m
+      | _, _, _, _, _ => fail "unparsable event line"
+  | ["V", tid, kind] =>
+    match cur with
+    | none => (none, none)
+    | some r =>
+      if r.failed.isSome then (some r, none) else
+      let r := { r with events := r.events + 1 }
+      match tid.toNat? with
+      | none => (some { r with failed := some s!"event={r.events} unparsable V line" }, none)
+      | some t =>
+        match vrEvent r.vr t kind with
+        | .ok d => (some { r with vr := d }, none)
+        | .error m => (some { r with failed := some s!"event={r.events} [{line.trimAscii.toString}] {m}" }, none)
+  | "CLIPS" :: t0 :: cs =>
+    let cs := cs.filterMap String.toNat?
+    let t0 := t0.toNat?.getD 0
+    let s := Clips.arun cs { total := t0, todo := cs }
+    (cur, some s!"clips {s.total} todo={s.todo.length}")
+  | _ => (cur, none)
+
+partial def loop (h : IO.FS.Stream) (out : IO.FS.Stream) (cur : Option Run) : IO Unit := do
+  let line ← h.getLine
+  if line.isEmpty then
+    match cur with
+    | some r => out.putStrLn s!"REJECT {r.id} trace not terminated by END"
+    | none => pure ()
+    return
+  let (cur, o) := handleLine cur line
+  match o with
+  | some s => out.putStrLn s
+  | none => pure ()
+  loop h out cur
+
+end Soxr.Conc.Driver
+
+def main : IO Unit := do
+  let stdin ← IO.getStdin
+  let stdout ← IO.getStdout
+  Soxr.Conc.Driver.loop stdin stdout none
